@@ -962,6 +962,8 @@ class NoMutationOracle(Observer):
         for h, c in data.items():
             if h in w.T and _ck(w.T[h].data) != c:
                 role = "seed_tensor" if h == seed_t else ("operand" if any(r.get("t") == h for r in ev.get("args", [])) else "other")
+                if role != "seed_tensor" and any(r() is w.T[h].data for r in getattr(self, "seeds", [])):
+                    role = "former_seed"  # its data was handed to an earlier backward(grad) and is still some tensor's .grad
                 if w.violation(
                     "C12",
                     "C12.tensor_data_modified",
